@@ -69,6 +69,16 @@ def daysBeforeMonth (year month : Nat) : Nat := daysBeforeMonthTbl.getD month 0 
 /-- `_ymd2ord`: 0001-01-01 is day 1 -/
 def ymd2ord (year month day : Nat) : Nat := daysBeforeYear year + daysBeforeMonth year month + day
 
+/-- the second half of `_ord2ymd`: month and day of the `n`-th day (from 0) of a year -/
+def monthDay (leap : Bool) (n : Nat) : Nat × Nat :=
+  let month := (n + 50) / 32        -- `(n + 50) >> 5`: an estimate that is either exact or one too large
+  let preceding := daysBeforeMonthTbl.getD month 0 + (if month > 2 && leap then 1 else 0)
+  if preceding > n then
+    let month := month - 1
+    let preceding := preceding - (daysInMonthTbl.getD month 0 + (if month == 2 && leap then 1 else 0))
+    (month, n - preceding + 1)
+  else (month, n - preceding + 1)
+
 /-- `_ord2ymd` -/
 def ord2ymd (ord : Nat) : Nat × Nat × Nat :=
   let n := ord - 1
@@ -84,13 +94,8 @@ def ord2ymd (ord : Nat) : Nat × Nat × Nat :=
   if n1 == 4 || n100 == 4 then (year - 1, 12, 31)
   else
     let leap := n1 == 3 && (n4 != 24 || n100 == 3)
-    let month := (n + 50) / 32
-    let preceding := daysBeforeMonthTbl.getD month 0 + (if month > 2 && leap then 1 else 0)
-    if preceding > n then
-      let month := month - 1
-      let preceding := preceding - (daysInMonthTbl.getD month 0 + (if month == 2 && leap then 1 else 0))
-      (year, month, n - preceding + 1)
-    else (year, month, n - preceding + 1)
+    let md := monthDay leap n
+    (year, md.1, md.2)
 
 /-- `date.weekday()`: Monday = 0 -/
 def weekdayOfOrd (ord : Nat) : Nat := (ord + 6) % 7
